@@ -114,6 +114,20 @@ CHECKS = {
         'characterisation entries pin what the docstrings leave open; '
         'negative positions are not judged',
         'DESIGN.md section 2, C13'),
+    'C14': (
+        'Hypothesis-generated pipelines over an instrumented endless source; '
+        'consumption bound from a generator-based reference model',
+        'Generated-input search: pipelines of 1-4 operators from the '
+        'property\'s list (21 operators, 5 short-circuit reducers) with '
+        'tick-instrumented lambdas from a periodic family; the harness pulls '
+        'exactly k results from the unfinalised iterator; the same pipeline '
+        'as plain Python generators over a counting source gives the pulls '
+        'and per-lambda applications those k results require; yaql may use '
+        'one more of each; results are compared too. Every operator alone x '
+        'k in 0..4 is enumerated; compositions are sampled.',
+        'need is defined by the straightforward lazy implementation; '
+        'pipelines needing >400 source elements are excluded',
+        'DESIGN.md section 2, C14'),
     'C15': (
         'exhaustive all-pairs enumeration of a boundary corpus under every '
         'scalar operator against a reference model, law checks through yaql, '
